@@ -842,6 +842,21 @@ struct Runner
               };
             }
           }
+          else if (act == 3 && slots[si].a) {
+            // the owner of the callback that is running is moved away and back while the guest is inside it
+            g_body_action = [this, si] {
+              c.probe("running_callback_owner_moved_inside_its_body");
+              Slot& sl = slots[si];
+              Outcome ro = attempt([&] {
+                OwnerA tmp(std::move(*sl.a));
+                *sl.a = std::move(tmp);
+              });
+              if (ro != OK)
+                c.violate("C13", "move_of_running_owner_aborts@call", "inside its own callback body: %s", g_last_abort_msg.c_str());
+              else if (sl.a->is_unregistered())
+                c.violate("C13", "registration_lost_by_moving_owner_away_and_back@call", "owner #%zu", si);
+            };
+          }
           do_call(si, a, b, times, rets, nest);
           g_body_action = nullptr;
           break;
